@@ -61,6 +61,8 @@ int World::exec_abuse(const Op &op) {
             // reads of the whole array (raw and, when a polynomial / origin is set, calibrated) into exactly-sized heap buffers of every
             // element type: a byte written past the requested elements lands in a red zone
             if (!rank || ext.nelms() == 0 || ext.nelms() > 512 || dt == DataType::String) break;
+            // half of the time the array is given a calibration first (unless it has one), so that the reads below take the calibrated path
+            if (mode == 0 && (a[3] & 1) && x.polynomCoefficients().empty() && !x.expansionOrigin()) { ATTEMPT(x.polynomCoefficients(std::vector<double>{0.5, 2.0})); if (a[3] & 2) ATTEMPT(x.expansionOrigin(1.0)); arr.erase(x.id()); cnt.inc("abuse.calibration_planted"); }
             static const DataType ts[] = {DataType::Bool, DataType::Int8, DataType::Int16, DataType::Int32, DataType::Int64, DataType::UInt8, DataType::UInt16, DataType::UInt32, DataType::UInt64, DataType::Float, DataType::Double};
             for (DataType t : ts) {
                 std::unique_ptr<char[]> hb(new char[(size_t) ext.nelms() * data_type_to_size(t)]);
